@@ -16,6 +16,7 @@ func init() {
 		Run:   runC08,
 		Trusted: []string{"net/http sets Request.RemoteAddr to the peer's ip:port and Request.TLS iff the connection used TLS", "httputil.ReverseProxy appends the peer address to X-Forwarded-For for non-upgrade requests"},
 		Mutants: []mutant{
+
 			{Name: "Add instead of Set for the client-IP header", File: "proxy/http_headers.go", Old: "r.Header.Set(cfg.ClientIPHeader, remoteIP)", New: "r.Header.Add(cfg.ClientIPHeader, remoteIP)", Expect: "C08.A1"},
 			{Name: "client-IP header only when absent", File: "proxy/http_headers.go", Old: "\t\tcfg.ClientIPHeader != \"X-Real-Ip\" {", New: "\t\tcfg.ClientIPHeader != \"X-Real-Ip\" && r.Header.Get(cfg.ClientIPHeader) == \"\" {", Expect: "C08.A1"},
 			{Name: "client-IP header from X-Real-Ip", File: "proxy/http_headers.go", Old: "r.Header.Set(cfg.ClientIPHeader, remoteIP)", New: "r.Header.Set(cfg.ClientIPHeader, r.Header.Get(\"X-Real-Ip\"))", Expect: "C08.A1"},
@@ -25,6 +26,7 @@ func init() {
 			{Name: "Host rewrite before addHeaders again", File: "proxy/http_proxy.go", Old: "\tif err := addHeaders(r, p.Config, t.StripPath); err != nil {", New: "\tif t.Host != \"\" && t.Host != \"dst\" {\n\t\tr.Host = t.Host\n\t}\n\tif err := addHeaders(r, p.Config, t.StripPath); err != nil {", Expect: "C08.O1"},
 			{Name: "addHeaders tests only the lower-case spelling", File: "proxy/http_headers.go", Old: "\tws := isWebsocketUpgrade(r)\n\tif ws {\n\t\tclientIP := remoteIP", New: "\tws := r.Header.Get(\"Upgrade\") == \"websocket\"\n\tif ws {\n\t\tclientIP := remoteIP", Expect: "C08.X1"},
 			{Name: "websocket X-Forwarded-For decided by the derived scheme", File: "proxy/http_headers.go", Old: "\tws := isWebsocketUpgrade(r)\n\tif ws {\n\t\tclientIP := remoteIP", New: "\tws := scheme(r) == \"ws\" || scheme(r) == \"wss\"\n\tif ws {\n\t\tclientIP := remoteIP", Expect: "C08.X3"},
+			{Name: "Forwarded for= reuses the folded X-Forwarded-For value", File: "proxy/http_headers.go", Old: "\t\t\tr.Header.Set(\"X-Forwarded-For\", clientIP)\n", New: "\t\t\tr.Header.Set(\"X-Forwarded-For\", clientIP)\n\t\t\tremoteIP = clientIP\n", Expect: "C08.A3"},
 			{Name: "peer not last in X-Forwarded-For", File: "proxy/http_headers.go", Old: "clientIP = strings.Join(prior, \", \") + \", \" + clientIP", New: "clientIP = clientIP + \", \" + strings.Join(prior, \", \")", Expect: "C08.X2"},
 			{Name: "HSTS without the TLS test", File: "proxy/http_headers.go", Old: "if r.TLS != nil && cfg.STSHeader.MaxAge > 0 {", New: "if cfg.STSHeader.MaxAge > 0 {", Expect: "C08.S1"},
 			{Name: "request id kept when the client sent one", File: "proxy/http_proxy.go", Old: "\tif p.Config.RequestID != \"\" {", New: "\tif p.Config.RequestID != \"\" && r.Header.Get(p.Config.RequestID) == \"\" {", Expect: "C08.R1"},
@@ -305,6 +307,7 @@ func runC08(c *Ctx) {
 	c.check("C08.X1", "package proxy|ServeHTTP, addHeaders and scheme all decide on the Upgrade header", serve.Pos(), usesWS == 3, "the tunnel decision, the X-Forwarded-For handling and the scheme detection must all look at the Upgrade header")
 
 	runC08X3(c)
+	runC08A3(c, add)
 
 	// ---- X2
 	nXFF := 0
@@ -425,4 +428,32 @@ func runC08(c *Ctx) {
 		})
 	}
 	c.atLeast("C08.P1", "host/port separations of Request.Host/RemoteAddr in package proxy", nSplit, 2)
+}
+
+// runC08A3: the address fabio itself puts into a default `Forwarded: for=` element derives from the connection only.
+func runC08A3(c *Ctx, add *ssa.Function) {
+	n := 0
+	eachInstr(add, func(i ssa.Instruction) {
+		b, ok := i.(*ssa.BinOp)
+		if !ok || b.Op != token.ADD {
+			return
+		}
+		s, isS := constString(b.X)
+		if !isS || !strings.HasSuffix(s, "for=") {
+			return
+		}
+		n++
+		k, dep := dependsOnClientHeader(b.Y)
+		if !dep {
+			// through merges (phi) as well
+			for _, d := range defsOf(b.Y) {
+				if kk, dd := dependsOnClientHeader(d.Val); dd {
+					k, dep = kk, true
+				}
+			}
+		}
+		c.check("C08.A3", "proxy.addHeaders|Forwarded for= names the peer address", b.Pos(), fromRemoteAddr(b.Y) && !dep,
+			"when fabio supplies the Forwarded header itself, its for= element must be the peer address taken from RemoteAddr; here it (also) derives from the client's "+k+" header, so a client can make fabio vouch for a forged address")
+	})
+	c.atLeast("C08.A3", "for= elements built in addHeaders", n, 1)
 }
